@@ -2,17 +2,14 @@
    (main_loop / step / parse_expression ...) never panics on token lists of the
    shape the grammar produces.
 
-   `wf_tokens` is an inductively defined set of token lists that mirrors
-   grammar.pest (template := items; item := raw text | tag with its argument
-   tokens | comment | helper block (start, template, (chain tag, template)*,
-   (else, template)?, end) | raw block | decorator/partial block), with the span
-   ordering that pest's pre-order flattening gives.  It deliberately EXCLUDES
-   the F1 class (an `{{~else if ..}}` chain tag with a leading tilde), on which
-   the model panics (CompileNoPanic.compile_panics).
+   `wf_tokens` (Spec/WfTokens.v) is an inductively defined set of token lists that
+   mirrors grammar.pest (template := items; item := raw text | tag with its
+   argument tokens | comment | helper block (start, template, (chain tag,
+   template)*, (else, template)?, end) | raw block | decorator/partial block),
+   with the span ordering that pest's pre-order flattening gives.
 
-   NOT proved here: "every token list pest produces for a non-F1 source is in
-   wf_tokens" (that is the grammar-schema theorem); it is checked by the
-   differential run.  Hence the `_partial` suffix of the main theorem. *)
+   That every token list pest produces is in wf_tokens is the grammar-schema
+   theorem (Proofs/GrammarSchema.v). *)
 From Coq Require Import List NArith Lia Bool Sorting.Sorted.
 From HB Require Import Peg.Peg Peg.Grammar Tpl.Compile Spec.WfTokens Proofs.PegFacts Proofs.CompileNoPanic.
 Import ListNotations.
@@ -420,9 +417,9 @@ Section Stages.
   | cw_node n c m : chain_wf (h_inv c) -> chain_wf (Some (MkT n [ElBlock c] m)).
   Definition hwf (h : helper_t) : Prop := chain_wf (h_inv h).
 
-  (* stack depths, well-formed else-chains on the helper stack *)
+  (* stack depths (a lower bound for the template stack), well-formed else-chains on the helper stack *)
   Definition Sh (n k d : nat) (c : cstate) : Prop :=
-    length (c_ts c) = n /\ length (c_hs c) = k /\ length (c_ds c) = d /\ Forall hwf (c_hs c).
+    (n <= length (c_ts c))%nat /\ length (c_hs c) = k /\ length (c_ds c) = d /\ Forall hwf (c_hs c).
   Definition St (n k d : nat) (lo : N) (c : cstate) : Prop := Sh n k d c /\ pe c = lo.
 
   Notation escapes_sorted := (escapes_sorted all).
@@ -457,25 +454,22 @@ Section Stages.
 
   Hypothesis Hesc : escapes_sorted.
 
-  Lemma push_front_okres ts el lc site n : length ts = n -> (1 <= n)%nat ->
-    okres (fun ts' => length ts' = n) (push_front_el ts el lc site).
+  Lemma push_front_okres ts el lc site n : (n <= length ts)%nat -> (1 <= n)%nat ->
+    okres (fun ts' => (n <= length ts')%nat) (push_front_el ts el lc site).
   Proof. intros Hl Hn. destruct ts as [|t r]; cbn [length] in Hl; [lia|]. cbn. assumption. Qed.
 
   (* ---------- the pre-step ---------- *)
   Lemma trailing_string_ok c pr lc n :
-    length (c_ts c) = n -> (1 <= n)%nat -> pe c <= tk_start pr -> span_ok src pr ->
-    (tk_rule pr = R_raw_block_end -> tk_start pr = pe c) ->
-    okres (fun c1 => length (c_ts c1) = n /\ c_hs c1 = c_hs c /\ c_ds c1 = c_ds c /\ c_end c1 = c_end c)
+    (n <= length (c_ts c))%nat -> (1 <= n)%nat -> pe c <= tk_start pr -> span_ok src pr ->
+    okres (fun c1 => (n <= length (c_ts c1))%nat /\ c_hs c1 = c_hs c /\ c_ds c1 = c_ds c /\ c_end c1 = c_end c)
           (trailing_string src c pr lc).
   Proof.
-    intros Hl Hn Hpe [Hse Hel] Hrbe. unfold trailing_string. fold (pe c).
+    intros Hl Hn Hpe [Hse Hel]. unfold trailing_string. fold (pe c).
     match goal with |- context [if ?b then _ else _] => destruct b eqn:Eb end; [|cbn; auto].
     destruct (slice_some src (pe c) (tk_start pr)) as (txt & -> & _); [assumption|lia|].
     destruct (raw_string_plain_ok txt false (c_trim c)) as (el & ->). cbn [cbind].
     destruct (rule_eqb (tk_rule pr) R_raw_block_end) eqn:Er.
-    - exfalso. assert (tk_rule pr = R_raw_block_end) as E by (destruct (tk_rule pr); try discriminate; reflexivity).
-      specialize (Hrbe E). rewrite Hrbe, N.eqb_refl in Eb. cbn [negb] in Eb.
-      rewrite andb_false_r in Eb. cbn [andb] in Eb. discriminate.
+    - cbn. repeat split; auto.
     - eapply okres_bind; [apply push_front_okres; eassumption|].
       intros ts' Hts'. cbn. auto.
   Qed.
@@ -537,8 +531,8 @@ Section Stages.
   (* ---------- prologue of every tag ---------- *)
   Lemma tag_prologue_ok f c1 pr l rest n :
     tag_toks (tk_end pr) l -> SP l -> next_ge (tk_end pr) rest ->
-    length (c_ts c1) = n -> (1 <= n)%nat ->
-    okres (fun x => snd x = rest /\ length (snd (fst x)) = n) (tag_prologue src f c1 pr (l ++ rest)).
+    (n <= length (c_ts c1))%nat -> (1 <= n)%nat ->
+    okres (fun x => snd x = rest /\ (n <= length (snd (fst x)))%nat) (tag_prologue src f c1 pr (l ++ rest)).
   Proof.
     intros Ht Hs Hn Hl Hn1. unfold tag_prologue.
     eapply okres_bind; [apply (proj1 (discipline f)); eassumption|].
@@ -549,13 +543,13 @@ Section Stages.
     - cbn. auto.
   Qed.
 
-  Lemma standalone_okres ts t pi ip n : span_ok src t -> length ts = n -> (1 <= n)%nat ->
-    okres (fun x => length (snd x) = n) (process_standalone_statement src ts t pi ip).
+  Lemma standalone_okres ts t pi ip n : span_ok src t -> (n <= length ts)%nat -> (1 <= n)%nat ->
+    okres (fun x => (n <= length (snd x))%nat) (process_standalone_statement src ts t pi ip).
   Proof.
     intros [A B] Hl Hn.
     destruct (process_standalone_ok src ts t pi ip) as (b & ts' & -> & L); [lia|assumption| |].
     - destruct ts; cbn [length] in Hl; [lia|discriminate].
-    - cbn. congruence.
+    - cbn. lia.
   Qed.
 
   Definition Res (rest : list tok) (n k d : nat) (hi : N) (r : cstate * list tok) : Prop :=
@@ -577,7 +571,7 @@ Section Stages.
   Proof.
     intros [(A & B & C & D) E]. unfold step, trailing_string. cbn [tk_rule fst snd tag_classify].
     change (rule_eqb R_template R_template) with true. cbn [negb andb cbind okres].
-    split; [reflexivity|]. split; [|exact E]. unfold Sh, with_ts. cbn [fst c_ts c_hs c_ds length]. repeat split; auto.
+    split; [reflexivity|]. split; [|exact E]. unfold Sh, with_ts. cbn [fst c_ts c_hs c_ds length]. repeat split; auto. lia.
   Qed.
 
   Lemma step_raw_text f c s e it n k d lo : St n k d lo c -> (1 <= n)%nat ->
@@ -587,7 +581,7 @@ Section Stages.
     intros [(A & B & C & D) E] Hn Hlo Hsp. pose proof Hsp as [Hse Hel]. cbn [tk_start tk_end fst snd] in Hse, Hel.
     unfold step. cbn [tk_rule fst snd tag_classify].
     eapply okres_bind.
-    - apply (trailing_string_ok c _ _ n); try assumption; [rewrite E; exact Hlo | discriminate].
+    - apply (trailing_string_ok c _ _ n); try assumption. rewrite E; exact Hlo.
     - intros c1 (A1 & B1 & C1 & E1). fold (pe c). rewrite E. cbn [tk_start tk_end fst snd].
       set (start := if negb (s =? lo) then lo else s).
       assert (Hst : start <= s) by (unfold start; destruct (negb (s =? lo)); lia).
@@ -603,7 +597,7 @@ Section Stages.
   Qed.
 
   Lemma Sh_pre c c1 n k d : Sh n k d c ->
-    length (c_ts c1) = n -> c_hs c1 = c_hs c -> c_ds c1 = c_ds c -> Sh n k d c1.
+    (n <= length (c_ts c1))%nat -> c_hs c1 = c_hs c -> c_ds c1 = c_ds c -> Sh n k d c1.
   Proof. intros (A & B & C & D) A1 B1 C1. unfold Sh. rewrite B1, C1. auto. Qed.
 
   (* {{expr}} / {{{expr}}} / {{&expr}} *)
@@ -615,8 +609,7 @@ Section Stages.
     intros Hc [HSh E] Hn Hlo Hsp Ht Hs Hnx. pose proof HSh as (A & B & C & D).
     unfold step. cbn [tk_rule tk_start tk_end fst snd]. rewrite Hc.
     eapply okres_bind.
-    - apply (trailing_string_ok c _ _ n); try assumption; [rewrite E; exact Hlo|].
-      intros Er. cbn in Er. subst r. discriminate Hc.
+    - apply (trailing_string_ok c _ _ n); try assumption. rewrite E; exact Hlo.
     - intros c1 (A1 & B1 & C1 & E1). pose proof (Sh_pre _ _ _ _ _ HSh A1 B1 C1) as HSh1.
       cbn iota. apply step_finish.
       eapply okres_bind; [apply (tag_prologue_ok f c1 (r, s, e) l rest n); assumption|].
@@ -635,8 +628,7 @@ Section Stages.
     intros Hc [HSh E] Hn Hlo Hsp Ht Hs Hnx. pose proof HSh as (A & B & C & D).
     unfold step. cbn [tk_rule tk_start tk_end fst snd]. rewrite Hc.
     eapply okres_bind.
-    - apply (trailing_string_ok c _ _ n); try assumption; [rewrite E; exact Hlo|].
-      intros Er. cbn in Er. subst r. discriminate Hc.
+    - apply (trailing_string_ok c _ _ n); try assumption. rewrite E; exact Hlo.
     - intros c1 (A1 & B1 & C1 & E1). pose proof (Sh_pre _ _ _ _ _ HSh A1 B1 C1) as HSh1.
       cbn iota. apply step_finish.
       eapply okres_bind; [apply (tag_prologue_ok f c1 (r, s, e) l rest n); assumption|].
@@ -662,8 +654,7 @@ Section Stages.
     intros Hc [HSh E] Hn Hlo Hsp. pose proof HSh as (A & B & C & D).
     unfold step. cbn [tk_rule tk_start tk_end fst snd]. rewrite Hc.
     eapply okres_bind.
-    - apply (trailing_string_ok c _ _ n); try assumption; [rewrite E; exact Hlo|].
-      intros Er. cbn in Er. subst r. discriminate Hc.
+    - apply (trailing_string_ok c _ _ n); try assumption. rewrite E; exact Hlo.
     - intros c1 (A1 & B1 & C1 & E1). pose proof (Sh_pre _ _ _ _ _ HSh A1 B1 C1) as HSh1.
       cbn iota. apply step_finish.
       eapply okres_bind; [apply (standalone_okres (c_ts c1) (r, s, e) _ _ n); assumption|].
@@ -683,34 +674,31 @@ Section Stages.
     intros Hc [HSh E] Hn Hlo Hsp. pose proof HSh as (A & B & C & D).
     unfold step. cbn [tk_rule tk_start tk_end fst snd]. rewrite Hc.
     eapply okres_bind.
-    - apply (trailing_string_ok c _ _ n); try assumption; [rewrite E; exact Hlo|].
-      intros Er. cbn in Er. subst r. discriminate Hc.
+    - apply (trailing_string_ok c _ _ n); try assumption. rewrite E; exact Hlo.
     - intros c1 (A1 & B1 & C1 & E1). pose proof (Sh_pre _ _ _ _ _ HSh A1 B1 C1) as HSh1.
       cbn iota. apply step_finish. cbn [okres fst snd]. auto.
   Qed.
 
   (* raw block body: pushes its own template *)
   Lemma step_raw_block_text f c s e rest n k d lo :
-    St n k d lo c -> (1 <= n)%nat -> span_ok src (R_raw_block_text, s, e) ->
+    St n k d lo c -> (1 <= n)%nat -> lo <= s -> span_ok src (R_raw_block_text, s, e) ->
     okres (Res rest (S n) k d e) (step src all opts f c (R_raw_block_text, s, e) rest).
   Proof.
-    intros [HSh E] Hn Hsp. pose proof HSh as (A & B & C & D). pose proof Hsp as [Hse Hel].
+    intros [HSh E] Hn Hlo Hsp. pose proof HSh as (A & B & C & D). pose proof Hsp as [Hse Hel].
     cbn [tk_start tk_end fst snd] in Hse, Hel.
     unfold step, trailing_string. cbn [tk_rule tk_start tk_end fst snd tag_classify].
     change (rule_eqb R_raw_block_text R_raw_block_text) with true.
     rewrite !andb_false_r. cbn [negb andb cbind].
-    apply step_finish.
-    destruct (span_str_ok src (R_raw_block_text, s, e) (`"raw_block_text span") Hsp) as (txt & Etxt).
-    rewrite Etxt. cbn [cbind].
-    assert (Hlen : len txt = e - s).
-    { unfold span_str in Etxt. cbn [tk_start tk_end fst snd] in Etxt.
-      destruct (slice_some src s e Hse Hel) as (t' & Es & L). rewrite Es in Etxt. inversion Etxt; subst. exact L. }
+    apply step_finish. fold (pe c). rewrite E.
+    set (start := if negb (s =? lo) then lo else s).
+    assert (Hst : start <= s) by (unfold start; destruct (negb (s =? lo)); lia).
+    destruct (slice_some src start e) as (txt & -> & Hlen); [lia|assumption|].
     destruct (raw_string_ok txt (R_raw_block_text, s, e) (inner_escapes all (R_raw_block_text, s, e)) (c_omit c) (c_trim c))
       as (el & Eel); [assumption | cbn [tk_start tk_end fst snd]; lia | apply inner_escapes_ok; assumption |].
     match goal with |- context [raw_string ?a ?b ?c ?d] =>
       replace (raw_string a b c d) with (@COk element el) by (symmetry; exact Eel) end.
     cbn [cbind okres fst snd]. split; [reflexivity|].
-    unfold Sh, with_ts. cbn [c_ts c_hs c_ds length]. auto.
+    unfold Sh, with_ts. cbn [c_ts c_hs c_ds length]. repeat split; auto. lia.
   Qed.
 
   (* block start tags: push a helper (or a decorator) *)
@@ -723,8 +711,7 @@ Section Stages.
     intros Hc [HSh E] Hn Hlo Hsp Ht Hs Hnx. pose proof HSh as (A & B & C & D).
     unfold step. cbn [tk_rule tk_start tk_end fst snd]. rewrite Hc.
     eapply okres_bind.
-    - apply (trailing_string_ok c _ _ n); try assumption; [rewrite E; exact Hlo|].
-      intros Er. cbn in Er. subst r. discriminate Hc.
+    - apply (trailing_string_ok c _ _ n); try assumption. rewrite E; exact Hlo.
     - intros c1 (A1 & B1 & C1 & E1). pose proof (Sh_pre _ _ _ _ _ HSh A1 B1 C1) as HSh1.
       cbn iota. apply step_finish.
       eapply okres_bind; [apply (tag_prologue_ok f c1 (r, s, e) l rest n); assumption|].
@@ -747,60 +734,128 @@ Section Stages.
   Qed.
 
   (* {{else}} / {{^}} / {{else if ..}}: pops the finished template into the helper *)
-  Lemma step_invert f c s e l0 l rest n k d lo (chain : bool) :
-    St (S n) (S k) d lo c -> lo <= s ->
-    span_ok src ((if chain then R_invert_chain_tag else R_invert_tag), s, e) ->
-    (if chain then exists si ei, l0 = [(R_invert_tag_item, si, ei)] /\ span_ok src (R_invert_tag_item, si, ei)
-     else l0 = []) ->
+  (* the common tail of the invert arm, once the tokens of the tag are consumed *)
+  Lemma invert_tail c1 pr (chain : bool) e (rest : list tok) n k d ts1 :
+    Sh (S n) (S k) d c1 -> span_ok src pr -> (S n <= length ts1)%nat ->
+    okres (fun r => snd r = rest /\ Sh n (S k) d (fst r))
+      (do '(trim, ts2) <- process_standalone_statement src ts1 pr true (o_is_partial opts);
+       let ibw := trim && negb (es_pre e) in
+       match ts2 with
+       | [] => CPanic (`"invert pop_front")
+       | t :: ts3 =>
+           match c_hs c1 with
+           | [] => CPanic (`"invert helper front")
+           | h :: hs =>
+               let h1 := if chain then h_set_chain h true else h in
+               do h2 <- set_chain_template h1 (Some t);
+               let h3 := if chain then insert_inverse_node h2 (mk_helper e true true ibw) else h2 in
+               COk ({| c_ts := ts3; c_hs := h3 :: hs; c_ds := c_ds c1;
+                       c_omit := es_pro e; c_trim := trim; c_end := c_end c1 |}, rest)
+           end
+       end).
+  Proof.
+    intros (A2 & B2 & C2 & D2) Hsp Y.
+    eapply okres_bind; [apply (standalone_okres ts1 pr _ _ (S n)); try assumption; lia|].
+    intros [trim ts2] Y2. cbn [snd] in Y2.
+    destruct ts2 as [|t2 ts3]; cbn [length] in Y2; [lia|].
+    destruct (c_hs c1) as [|h hs] eqn:Eh; cbn [length] in B2; [lia|].
+    inversion D2 as [|h' hs' Hh Hhs]; subst.
+    eapply okres_bind.
+    - apply set_chain_template_ok. destruct chain; [unfold hwf; rewrite h_inv_set_chain|]; exact Hh.
+    - intros h2 Hh2. cbn [okres fst snd]. split; [reflexivity|].
+      unfold Sh. cbn [c_ts c_hs c_ds length]. repeat split; try lia; try assumption.
+      constructor; [|assumption]. destruct chain; [apply insert_inverse_node_hwf|]; exact Hh2.
+  Qed.
+
+  Lemma remove_prev_ws_okres ts (b : bool) n : (n <= length ts)%nat -> (1 <= n)%nat ->
+    okres (fun ts1 => (n <= length ts1)%nat)
+          (if b then remove_previous_whitespace ts else COk ts).
+  Proof.
+    intros Hl Hn. destruct b; [|exact Hl].
+    unfold remove_previous_whitespace. destruct ts as [|t r]; cbn [length] in Hl; [lia|]. cbn. exact Hl.
+  Qed.
+
+  (* {{else}} / {{^}}: pops the finished template into the helper *)
+  Lemma step_invert_plain f c s e l rest n k d lo :
+    St (S n) (S k) d lo c -> lo <= s -> span_ok src (R_invert_tag, s, e) ->
+    tag_toks e l -> SP l -> next_ge e rest ->
+    okres (Res rest n (S k) d e) (step src all opts f c (R_invert_tag, s, e) (l ++ rest)).
+  Proof.
+    intros [HSh E] Hlo Hsp Ht Hs Hnx. pose proof HSh as (A & B & C & D).
+    unfold step. cbn [tk_rule tk_start tk_end fst snd tag_classify].
+    eapply okres_bind.
+    - apply (trailing_string_ok c _ _ (S n)); try assumption; [lia | rewrite E; exact Hlo].
+    - intros c1 (A1 & B1 & C1 & E1). pose proof (Sh_pre _ _ _ _ _ HSh A1 B1 C1) as HSh1.
+      cbn iota. apply step_finish. cbn [cbind].
+      eapply okres_bind; [apply (proj1 (discipline f)); eassumption|].
+      intros [e0 it1] X. cbn [snd] in X. subst it1.
+      eapply okres_bind; [apply (remove_prev_ws_okres _ _ (S n)); [exact A1 | lia]|].
+      intros ts1 Y. apply (invert_tail c1 (R_invert_tag, s, e) false (es_or_pre e0 false) rest n k d ts1); assumption.
+  Qed.
+
+  (* {{else if ..}} and {{~else if ..}} *)
+  Lemma step_invert_chain f c s e tl si ei l rest n k d lo :
+    St (S n) (S k) d lo c -> lo <= s -> span_ok src (R_invert_chain_tag, s, e) ->
+    opt_tilde tl -> span_ok src (R_invert_tag_item, si, ei) ->
     tag_toks e l -> SP l -> next_ge e rest ->
     okres (Res rest n (S k) d e)
-          (step src all opts f c ((if chain then R_invert_chain_tag else R_invert_tag), s, e)
-                (l0 ++ l ++ rest)).
+          (step src all opts f c (R_invert_chain_tag, s, e)
+                (tl ++ (R_invert_tag_item, si, ei) :: l ++ rest)).
   Proof.
-    intros [HSh E] Hlo Hsp Hl0 Ht Hs Hnx. pose proof HSh as (A & B & C & D).
-    set (r := if chain then R_invert_chain_tag else R_invert_tag) in *.
-    assert (Hc : tag_classify r = KInvert chain) by (unfold r; destruct chain; reflexivity).
-    unfold step. cbn [tk_rule tk_start tk_end fst snd]. rewrite Hc.
+    intros [HSh E] Hlo Hsp Htl Hspi Ht Hs Hnx. pose proof HSh as (A & B & C & D).
+    unfold step. cbn [tk_rule tk_start tk_end fst snd tag_classify].
     eapply okres_bind.
-    - apply (trailing_string_ok c _ _ (S n)); try assumption; [lia | rewrite E; exact Hlo|].
-      intros Er. cbn in Er. rewrite Er in Hc. discriminate Hc.
+    - apply (trailing_string_ok c _ _ (S n)); try assumption; [lia | rewrite E; exact Hlo].
     - intros c1 (A1 & B1 & C1 & E1). pose proof (Sh_pre _ _ _ _ _ HSh A1 B1 C1) as HSh1.
       cbn iota. apply step_finish.
-      eapply okres_bind with (P := fun it0 => it0 = l ++ rest).
-      { destruct chain.
-        - destruct Hl0 as (si & ei & -> & Hspi). cbn [app].
-          eapply okres_bind.
-          + apply (parse_name_plain f R_invert_tag_item si ei (l ++ rest)); [reflexivity|assumption].
-          + intros [nm it'] X. cbn [snd] in X. subst it'. reflexivity.
-        - subst l0. reflexivity. }
-      intros it0 ->.
-      eapply okres_bind; [apply (tag_prologue_ok f c1 (r, s, e) l rest (S n)); try assumption; lia|].
-      intros [[es ts1] it1] [X Y]. cbn [fst snd] in X, Y. subst it1.
-      eapply okres_bind; [apply (standalone_okres ts1 (r, s, e) _ _ (S n)); try assumption; lia|].
-      intros [trim ts2] Y2. cbn [snd] in Y2.
-      destruct HSh1 as (A2 & B2 & C2 & D2).
-      destruct ts2 as [|t2 ts3]; cbn [length] in Y2; [lia|].
-      destruct (c_hs c1) as [|h hs] eqn:Eh; cbn [length] in B2; [lia|].
-      inversion D2 as [|h' hs' Hh Hhs]; subst.
-      eapply okres_bind.
-      + apply set_chain_template_ok. destruct chain; [unfold hwf; rewrite h_inv_set_chain|]; exact Hh.
-      + intros h2 Hh2. cbn [okres fst snd]. split; [reflexivity|].
-        unfold Sh. cbn [c_ts c_hs c_ds length]. repeat split; try lia; try assumption.
-        constructor; [|assumption]. destruct chain; [apply insert_inverse_node_hwf|]; exact Hh2.
+      assert (Tail : forall pre : bool,
+        okres (fun r => snd r = rest /\ Sh n (S k) d (fst r))
+          (do it0 <- (do '(_, it') <- parse_name src f ((R_invert_tag_item, si, ei) :: l ++ rest); COk it');
+           do '(e0, it1) <- parse_expression src f it0 e;
+           let e1 := es_or_pre e0 pre in
+           do ts1 <- (if es_pre e1 then remove_previous_whitespace (c_ts c1) else COk (c_ts c1));
+           do '(trim, ts2) <- process_standalone_statement src ts1 (R_invert_chain_tag, s, e) true (o_is_partial opts);
+           let ibw := trim && negb (es_pre e1) in
+           match ts2 with
+           | [] => CPanic (`"invert pop_front")
+           | t :: ts3 =>
+               match c_hs c1 with
+               | [] => CPanic (`"invert helper front")
+               | h :: hs =>
+                   let h1 := h_set_chain h true in
+                   do h2 <- set_chain_template h1 (Some t);
+                   let h3 := insert_inverse_node h2 (mk_helper e1 true true ibw) in
+                   COk ({| c_ts := ts3; c_hs := h3 :: hs; c_ds := c_ds c1;
+                           c_omit := es_pro e1; c_trim := trim; c_end := c_end c1 |}, it1)
+               end
+           end)).
+      { intros pre.
+        eapply okres_bind with (P := fun it0 => it0 = l ++ rest).
+        { eapply okres_bind.
+          - apply (parse_name_plain f R_invert_tag_item si ei (l ++ rest)); [reflexivity|assumption].
+          - intros [nm it'] X. cbn [snd] in X. subst it'. reflexivity. }
+        intros it0 ->.
+        eapply okres_bind; [apply (proj1 (discipline f)); eassumption|].
+        intros [e0 it1] X. cbn [snd] in X. subst it1. cbn zeta.
+        eapply okres_bind; [apply (remove_prev_ws_okres _ _ (S n)); [exact A1 | lia]|].
+        intros ts1 Y. apply (invert_tail c1 (R_invert_chain_tag, s, e) true (es_or_pre e0 pre) rest n k d ts1); assumption. }
+      destruct Htl as [-> | (s0 & e0 & ->)]; cbn [app].
+      + change (is_rule R_leading_tilde_to_omit_whitespace (R_invert_tag_item, si, ei)) with false.
+        cbn iota. apply Tail.
+      + change (is_rule R_leading_tilde_to_omit_whitespace (R_leading_tilde_to_omit_whitespace, s0, e0)) with true.
+        cbn iota. apply Tail.
   Qed.
 
   (* {{/name}} of a helper block or raw block: pops helper and template *)
   Lemma step_helper_end f c r s e l rest n k d lo :
     tag_classify r = KHelperEnd -> St (S (S n)) (S k) d lo c -> lo <= s ->
-    (r = R_raw_block_end -> s = lo) ->
     span_ok src (r, s, e) -> tag_toks e l -> SP l -> next_ge e rest ->
     okres (Res rest (S n) k d e) (step src all opts f c (r, s, e) (l ++ rest)).
   Proof.
-    intros Hc [HSh E] Hlo Hrbe Hsp Ht Hs Hnx. pose proof HSh as (A & B & C & D).
+    intros Hc [HSh E] Hlo Hsp Ht Hs Hnx. pose proof HSh as (A & B & C & D).
     unfold step. cbn [tk_rule tk_start tk_end fst snd]. rewrite Hc.
     eapply okres_bind.
-    - apply (trailing_string_ok c _ _ (S (S n))); try assumption; [lia | rewrite E; exact Hlo|].
-      intros Er. cbn in Er. rewrite E. cbn [tk_start fst snd]. auto.
+    - apply (trailing_string_ok c _ _ (S (S n))); try assumption; [lia | rewrite E; exact Hlo].
     - intros c1 (A1 & B1 & C1 & E1). pose proof (Sh_pre _ _ _ _ _ HSh A1 B1 C1) as HSh1.
       cbn iota. apply step_finish.
       eapply okres_bind; [apply (tag_prologue_ok f c1 (r, s, e) l rest (S (S n))); try assumption; lia|].
@@ -828,8 +883,7 @@ Section Stages.
     intros Hc [HSh E] Hlo Hsp Ht Hs Hnx. pose proof HSh as (A & B & C & D).
     unfold step. cbn [tk_rule tk_start tk_end fst snd]. rewrite Hc.
     eapply okres_bind.
-    - apply (trailing_string_ok c _ _ (S (S n))); try assumption; [lia | rewrite E; exact Hlo|].
-      intros Er. cbn in Er. subst r. discriminate Hc.
+    - apply (trailing_string_ok c _ _ (S (S n))); try assumption; [lia | rewrite E; exact Hlo].
     - intros c1 (A1 & B1 & C1 & E1). pose proof (Sh_pre _ _ _ _ _ HSh A1 B1 C1) as HSh1.
       cbn iota. apply step_finish.
       eapply okres_bind; [apply (tag_prologue_ok f c1 (r, s, e) l rest (S (S n))); try assumption; lia|].
@@ -942,10 +996,9 @@ Section Stages.
       intros fuel4 c4 Hst4.
       eapply loop_step; [|exact HK]. intros f.
       apply (step_helper_end f c4 R_helper_block_end s9 e9 l9 rest n' k d m3); try assumption; try reflexivity.
-      + discriminate.
-      + apply first_ge_next; assumption.
+      apply first_ge_next; assumption.
     - (* i_rawblock *)
-      intros lo s0 e0 l0 s1 e1 e2 l2 Hlo Hse0 Ht0 He0 Hse1 He12 Ht2 rest n k d Hn Hs Hf HK fuel c Hst.
+      intros lo s0 e0 l0 s1 e1 s2 e2 l2 Hlo Hse0 Ht0 He0 Hse1 He12 Hse2 Ht2 rest n k d Hn Hs Hf HK fuel c Hst.
       split_SP.
       rewrite <- ?app_assoc, <- ?app_comm_cons.
       destruct n as [|n']; [lia|].
@@ -958,7 +1011,7 @@ Section Stages.
       { intros f. apply (step_raw_block_text f c1 s1 e1 _ (S n') (S k) d e0); try assumption; lia. }
       intros fuel2 c2 Hst2.
       eapply loop_step; [|exact HK]. intros f.
-      apply (step_helper_end f c2 R_raw_block_end e1 e2 l2 rest n' k d e1); try assumption; try reflexivity; try lia.
+      apply (step_helper_end f c2 R_raw_block_end s2 e2 l2 rest n' k d e1); try assumption; try reflexivity; try lia.
       apply first_ge_next; assumption.
     - (* i_dblock *)
       intros lo rs re s0 e0 l0 body m1 s9 e9 l9 Hp Hlo Hse0 Ht0 Hb IHb Hm1 Hse9 Ht9
@@ -990,14 +1043,12 @@ Section Stages.
     - (* cp_nil *)
       intros lo rest n k d Hn Hs Hf HK fuel c Hst. cbn [app]. apply HK. exact Hst.
     - (* cp_cons *)
-      intros lo s e si ei l body mid hi rest' Hlo Hse Hl Hb IHb Hc IHc rest n k d Hn Hs Hf HK fuel c Hst.
+      intros lo s e tl si ei l body mid hi rest' Hlo Hse Htl Hl Hb IHb Hc IHc rest n k d Hn Hs Hf HK fuel c Hst.
       split_SP.
       destruct (F3 _ _ _ Hb) as [Lb Fb]. destruct (F4 _ _ _ Hc) as [Lc Fc].
-      rewrite <- ?app_assoc, <- ?app_comm_cons.
+      rewrite <- ?app_assoc, <- ?app_comm_cons. rewrite <- ?app_assoc, <- ?app_comm_cons.
       eapply loop_step.
-      { intros f. apply (step_invert f c s e [(R_invert_tag_item, si, ei)] l _ n k d lo true);
-          try assumption.
-        - eexists _, _. split; [reflexivity|assumption].
+      { intros f. apply (step_invert_chain f c s e tl si ei l _ n k d lo); try assumption.
         - apply tg_plain; assumption.
         - apply first_ge_next. apply Fb. apply Fc. assumption. }
       intros fuel1 c1 Hst1.
@@ -1011,7 +1062,7 @@ Section Stages.
       destruct (F3 _ _ _ Hb) as [Lb Fb].
       rewrite <- ?app_assoc, <- ?app_comm_cons.
       eapply loop_step.
-      { intros f. apply (step_invert f c s e [] l _ n k d lo false); try assumption; try reflexivity.
+      { intros f. apply (step_invert_plain f c s e l _ n k d lo); try assumption.
         apply first_ge_next. apply Fb. assumption. }
       intros fuel1 c1 Hst1.
       eapply (IHb _ n (S k) d); [lia | assumption | exact Hf | exact HK | exact Hst1].
@@ -1150,7 +1201,8 @@ Proof.
     apply (ag_param 7 8 8); [apply vt_ref; side | lia].
   - apply t_mk; try lia. apply (is_cons 10 11 11); [apply i_raw; lia | apply is_nil].
   - (* {{else if b 1}} y *)
-    apply (cp_cons 11 11 26 13 17 _ _ 27 27 []); try lia.
+    apply (cp_cons 11 11 26 [] 13 17 _ _ 27 27 []); try lia.
+    + left; reflexivity.
     + apply (st_mk 26 20); [apply nt_plain; reflexivity | lia |].
       apply (at_cons 20 26 22); [|lia|lia|].
       * apply (ag_param 21 22 22); [apply vt_ref; side | lia].
